@@ -333,8 +333,8 @@ func intersects(a, b map[ssa.Value]bool) bool {
 func ruleTraversals(c *Check, rule string, onlyDupFree bool) {
 	c.Rule(rule, "each recursive call / worklist push in a loop over graph adjacency is reachable (within the loop body, for worklists within the pop iteration) only through a 'never seen' branch of a per-node mark, and that mark is set on every path (before the descent, or after it on every path to return)", map[bool]int{true: 3, false: 6}[onlyDupFree])
 	tabled := map[string]string{
-		"cmd/cmds.buildTree": "renders the dependency *tree* for `grog graph -o tree`: one line per path is the output format, not a graph algorithm named by the property",
-		"cmd/cmds.printTree": "tree rendering for `grog graph`, see buildTree",
+		"cmd/cmds.buildTree":                          "renders the dependency *tree* for `grog graph -o tree`: one line per path is the output format, not a graph algorithm named by the property",
+		"cmd/cmds.printTree":                          "tree rendering for `grog graph`, see buildTree",
 		"(*execution.Executor).LoadDependencyOutputs": "descends only into a dependency whose outputs failed to load; the re-run that follows sets the per-target OutputsLoaded mark, so a later visit returns from LoadOutputs before descending; not one of the operations the property names (minimal-mode fault path, see C15)",
 	}
 	seenFn := map[string]bool{}
